@@ -30,6 +30,18 @@ class F1(enum.IntFlag):
     B = 2
     D = 8
     H = 0x80
+    LEVEL_MASK = 0x30       # a multi-bit mask member whose bits have no single-bit names of their own
+
+
+def flags_pod_ref(flag_cls, val):
+    """plain-data form of a flag value, written from the documented shape: names of the single-bit members that are set, then one
+    integer holding every other bit (nothing if there is none)"""
+    singles = [m for m in flag_cls.__members__.values() if m.value and m.value & (m.value - 1) == 0]
+    names = tuple(m.name for m in singles if val & m.value)
+    left = val
+    for m in singles:
+        left &= ~m.value
+    return names + ((int(left),) if left else ())
 
 
 class SE1(dtypes.StringEnum):
@@ -61,7 +73,7 @@ LEAF_KINDS = ["prim", "f32", "f64", "bytes_fixed", "byte_array", "str", "str_fix
               "int_flag", "bitfield", "bool", "expr", "quant", "vec3", "quant_vec", "fixed_point", "string_enum", "ctx_adapter"]
 WINDOW_LEAF_KINDS = ["bytes_greedy"]
 NODE_KINDS = ["tuple", "template", "collection_prefixed", "collection_fixed", "optional_prefixed", "enum_switch", "flag_switch",
-              "typed_byte_array", "typed_bytes_fixed", "dataclass", "dict_adapter", "ctx_template", "ctx_tuple_template", "flagged_template", "bitfield_dc"]
+              "typed_byte_array", "typed_bytes_fixed", "dataclass", "dict_adapter", "ctx_template", "ctx_tuple_template", "ctx_typed_template", "flagged_template", "bitfield_dc"]
 WINDOW_NODE_KINDS = ["collection_greedy", "if_present", "length_switch", "typed_bytes_greedy"]
 ALL_KINDS = LEAF_KINDS + WINDOW_LEAF_KINDS + NODE_KINDS + WINDOW_NODE_KINDS
 
@@ -185,11 +197,14 @@ def spec_desc(draw, depth=3, last=True, want_fixed=False):
         d["c"] = [sub(last=(last and i == n - 1)) for i in range(n)]
     elif kind == "dict_adapter":
         d["c"] = [sub(last=False)]
-    elif kind in ("ctx_template", "ctx_tuple_template"):
+    elif kind in ("ctx_template", "ctx_tuple_template", "ctx_typed_template"):
         d["c"] = [sub(last=False), sub(last=False), sub(last=last)]
     elif kind == "flagged_template":
         d["flagspec"] = draw(st.sampled_from(["prim", "int_flag"]))
         d["c"] = [sub(last=False), sub(last=last)]
+        if draw(st.integers(0, 2)) == 0:
+            # a flagged member for which None is a legal value with a non-empty encoding (absent optional): flag set + None
+            d["c"][0] = {"k": "optional_prefixed", "c": [{"k": "prim", "p": draw(st.sampled_from(["U8", "U16", "S32"]))}]}
     return d
 
 
@@ -235,7 +250,7 @@ def _nonempty(d):
     if s:
         return True
     return d["k"] in ("byte_array", "str", "cstr", "collection_prefixed", "optional_prefixed", "typed_byte_array", "enum_switch",
-                      "flag_switch", "dict_adapter", "string_enum", "ctx_template", "ctx_tuple_template", "flagged_template") or \
+                      "flag_switch", "dict_adapter", "string_enum", "ctx_template", "ctx_tuple_template", "ctx_typed_template", "flagged_template") or \
         (d["k"] == "bytes_term")
 
 
@@ -243,7 +258,7 @@ def self_delimiting(d):
     k = d["k"]
     if k in ("bytes_greedy", "collection_greedy", "if_present", "length_switch", "typed_bytes_greedy"):
         return False
-    if k in ("tuple", "template", "dataclass", "ctx_template", "ctx_tuple_template", "flagged_template"):
+    if k in ("tuple", "template", "dataclass", "ctx_template", "ctx_tuple_template", "ctx_typed_template", "flagged_template"):
         return all(self_delimiting(c) for c in d["c"])
     if k in ("optional_prefixed", "enum_switch"):
         return all(self_delimiting(c) for c in d["c"])
@@ -359,6 +374,13 @@ def build(d):
             "body": se.ContextSwitch(lambda ctx: ctx.kind, {0: kids[0], 1: kids[1]}),
             "tail": kids[2],
         })
+    if k == "ctx_typed_template":
+        # the context-dependent member sits inside a length-prefixed byte window and is keyed on a sibling OUTSIDE that window
+        return se.Template({
+            "kind": se.U8,
+            "body": se.TypedByteArray(se.U16, se.ContextSwitch(lambda ctx: ctx.kind, {0: kids[0], 1: kids[1]}), lazy=False),
+            "tail": kids[2],
+        })
     if k == "ctx_tuple_template":
         # the context-dependent member sits inside a Tuple and looks at a field of the enclosing template (one level up)
         return se.Template({
@@ -464,6 +486,8 @@ def values(d):
         return st.dictionaries(st.integers(0, 0xFFFF), values(kids[0]), max_size=3).map(lambda m: [[a, b] for a, b in m.items()])
     if k == "ctx_template":
         return st.integers(0, 1).flatmap(lambda i: st.tuples(values(kids[i]), values(kids[2])).map(lambda t: [i, t[0], t[1]]))
+    if k == "ctx_typed_template":
+        return st.integers(0, 1).flatmap(lambda i: st.tuples(values(kids[i]), values(kids[2])).map(lambda t: [i, t[0], t[1]]))
     if k == "ctx_tuple_template":
         return st.integers(0, 1).flatmap(lambda i: st.tuples(values(kids[i]), values(kids[2]), st.integers(0, 255)).map(lambda t: [i, t[0], t[1], t[2]]))
     if k == "flagged_template":
@@ -491,7 +515,7 @@ def rich(d, v, spec=None, pod=False, reading=False):
             return E1(v).name if pod else E1(v)
         return v
     if k == "int_flag":
-        return dtypes.flags_to_pod(F1, v) if pod else F1(v)
+        return flags_pod_ref(F1, v) if pod else F1(v)
     if k == "string_enum":
         return v if pod else SE1(v)
     if k == "ctx_adapter":
@@ -499,7 +523,7 @@ def rich(d, v, spec=None, pod=False, reading=False):
         if kind == 0:
             body = (E1(raw).name if pod else E1(raw)) if raw in [int(m) for m in E1] else raw
         elif kind == 1:
-            body = dtypes.flags_to_pod(F1, raw) if pod else F1(raw)
+            body = flags_pod_ref(F1, raw) if pod else F1(raw)
         else:
             body = raw
         return {"kind": kind, "body": body}
@@ -561,12 +585,14 @@ def rich(d, v, spec=None, pod=False, reading=False):
         return {a: rich(kids[0], b, pod=pod, reading=reading) for a, b in v}
     if k == "ctx_template":
         return {"kind": v[0], "body": rich(kids[v[0]], v[1], pod=pod, reading=reading), "tail": rich(kids[2], v[2], pod=pod, reading=reading)}
+    if k == "ctx_typed_template":
+        return {"kind": v[0], "body": rich(kids[v[0]], v[1], pod=pod, reading=reading), "tail": rich(kids[2], v[2], pod=pod, reading=reading)}
     if k == "ctx_tuple_template":
         return {"kind": v[0], "body": (rich(kids[v[0]], v[1], pod=pod, reading=reading), v[3]), "tail": rich(kids[2], v[2], pod=pod, reading=reading)}
     if k == "flagged_template":
         flags = v[0]
         if d["flagspec"] == "int_flag":
-            flags = dtypes.flags_to_pod(F1, v[0]) if pod else F1(v[0])
+            flags = flags_pod_ref(F1, v[0]) if pod else F1(v[0])
         opt = rich(kids[0], v[1], pod=pod, reading=reading) if v[0] & 0x02 else None
         return {"flags": flags, "opt": opt, "tail": rich(kids[1], v[2], pod=pod, reading=reading)}
     raise ValueError(k)
